@@ -639,6 +639,17 @@ class RuleDBForest(RuleDBAbstract):
         self._already_empty: Set[int] = set()
         self._rule_cache = tuple(rule_cache)
 
+    def __eq__(self, other: object) -> bool:
+        """Check if all stored information is the same."""
+        if not isinstance(other, RuleDBForest):
+            return NotImplemented
+        # pylint: disable=protected-access
+        return (
+            self.reverse == other.reverse
+            and self._already_empty == other._already_empty
+            and self.table_method._rules == other.table_method._rules
+        )
+
     # Implementation of RuleDBAbstract
 
     def status(self, elaborate: bool) -> str:
